@@ -1,6 +1,8 @@
 package main
 
 import (
+	"fmt"
+	"go/types"
 	"strings"
 
 	"golang.org/x/tools/go/ssa"
@@ -180,4 +182,77 @@ func ruleR01_6(w *World, r *Report) {
 			r.Lost("a client API function that makes " + name)
 		}
 	}
+}
+
+// R17.14 a query compares a field with a value of the field's own type
+func ruleR17_14(w *World, r *Report) {
+	u := w.Server()
+	if u == nil {
+		return
+	}
+	r.Rule("R17.14", "every filter clause built from a field table (schema.XDocFields.F) compares that field with a value of the kind the document struct XDoc declares for it (numbers of any width compare by value; a string, a number, a boolean and a date never equal each other), so a clause with the wrong kind matches nothing (a purge that deletes nothing, a lookup that never finds)", 15)
+	n := 0
+	for _, fn := range u.ordaFuncs(func(p string) bool { return p == pMongo || p == pService || p == pSnapshot }) {
+		for _, c := range callsIn(fn) {
+			if !strings.HasPrefix(calleeName(c), "AddFilter") {
+				continue
+			}
+			_, args := recvAndArgs(c)
+			if len(args) != 2 {
+				continue
+			}
+			load, ok := args[0].(*ssa.UnOp)
+			if !ok {
+				continue
+			}
+			fa, ok := load.X.(*ssa.FieldAddr)
+			if !ok {
+				continue
+			}
+			g, ok := fa.X.(*ssa.Global)
+			if !ok || !strings.HasSuffix(g.Name(), "DocFields") || g.Pkg == nil {
+				continue
+			}
+			tbl, ok := g.Type().(*types.Pointer).Elem().Underlying().(*types.Struct)
+			if !ok || fa.Field >= tbl.NumFields() {
+				continue
+			}
+			fname := tbl.Field(fa.Field).Name()
+			docObj := g.Pkg.Pkg.Scope().Lookup(strings.TrimSuffix(g.Name(), "Fields"))
+			if docObj == nil {
+				r.Lost("the document struct of " + g.Name())
+				continue
+			}
+			doc, ok := docObj.Type().Underlying().(*types.Struct)
+			if !ok {
+				continue
+			}
+			var ftype types.Type
+			for i := 0; i < doc.NumFields(); i++ {
+				if doc.Field(i).Name() == fname {
+					ftype = doc.Field(i).Type()
+				}
+			}
+			if ftype == nil {
+				continue // a name of a nested document: not decided here
+			}
+			val := args[1]
+			if mi, isMI := val.(*ssa.MakeInterface); isMI {
+				val = mi.X
+			}
+			n++
+			// BSON numbers of every width compare by value; a string, a number, a boolean and a date never equal each other
+			good := types.Identical(val.Type().Underlying(), ftype.Underlying()) || (isNumericType(val.Type()) && isNumericType(ftype))
+			r.Check(good, fnName(flatRoot(fn))+"/"+calleeName(c)+"("+strings.TrimSuffix(g.Name(), "Fields")+"."+fname+") value of the field's type", u.Pos(c.Pos()), "the value has the field's type "+ftype.String(),
+				"the clause compares "+strings.TrimSuffix(g.Name(), "Fields")+"."+fname+" ("+ftype.String()+") with a value of type "+val.Type().String()+": no stored document matches, the query silently finds or deletes nothing")
+		}
+	}
+	if n < 15 {
+		r.Lost(fmt.Sprintf("filter clauses over field tables (found %d)", n))
+	}
+}
+
+func isNumericType(t types.Type) bool {
+	b, ok := t.Underlying().(*types.Basic)
+	return ok && b.Info()&types.IsNumeric != 0
 }
